@@ -10,6 +10,14 @@ import (
 
 // CommonType returns a type that both a and b are assignable to
 func commonType(a px.Type, b px.Type) px.Type {
+	// Unit is the element type of an empty collection. It accepts every type, but a collection of it describes no
+	// element at all, so it must not absorb the other type (the type inferred for [[], ['a']] is not Array[Array[Unit]])
+	if _, ok := a.(*UnitType); ok {
+		return b
+	}
+	if _, ok := b.(*UnitType); ok {
+		return a
+	}
 	if isAssignable(a, b) {
 		return a
 	}
